@@ -917,7 +917,7 @@ def correspondence(ctx):
         + ["freqvec:" + t for t in ("repeated-adjacent", "repeated-apart", "unsorted", "zero-repeated", "zero-unsorted", "zero+steady",
                                     "repeated+steady")]
         + ["dtype:" + t for t in ("sig-float32", "sig-int", "sig-list", "freq-float32", "freq-int", "freq-list")]
-        + ["shape:1-D", "shape:2-D"]
+        + ["shape:1-D", "shape:2-D", "shape:1-D:LF=1", "freqvec:single"]
         + ["callable:%s:eqsine=%s" % (w, e) for w in ("ms", "abs") for e in (True, False)]
     )
 
@@ -1102,6 +1102,15 @@ def _corr_frf(ctx, srs, rng, add):
             exact = _exact_square(Q) and note not in ("srs_frq-float32",)
             ctx.count("frf:" + tag.split(":")[0])
             ctx.count("frf:" + tag)
+            # branch bookkeeping from the *input* (an edit of the code must not make a declared branch disappear)
+            want_frq_in = (ret if ret is not None else sfd is None)
+            if not (getresp and qonly):
+                ctx.count("frf:returns-srs_frq" if want_frq_in else "frf:no-srs_frq")
+                ctx.count("frf:getresp" if getresp else "frf:no-resp")
+                if getresp:
+                    ctx.count("frf:grid-exact" if exact else "frf:grid-numeric")
+                    if m is not None and m["grid"] is not None and len(m["grid"]) < len(frqd) + (len(frqd) if sfd is None else len(sfd)):
+                        ctx.count("frf:grid-dropped-near-duplicates")
             if isinstance(impl, str):
                 ctx.case(("frf", tag, line_key(inp)), nontrivial=True, branch="frf:raises")
                 if m is not None:
@@ -1122,8 +1131,6 @@ def _corr_frf(ctx, srs, rng, add):
                 iresp = impl[k]
             n_osc = len(frqd) if sfd is None else len(sfd)
             ctx.case(("frf", tag, line_key(inp)), nontrivial=bool(np.any(sh != 0)))
-            ctx.count("frf:returns-srs_frq" if ifrq is not None else "frf:no-srs_frq")
-            ctx.count("frf:getresp" if iresp is not None else "frf:no-resp")
             # ---- exact: what is returned, shapes
             obs = {"n_returned": len(impl), "srs_frq": ifrq is not None, "resp": iresp is not None, "sh_shape": list(sh.shape),
                    "frfs_shape": None if iresp is None else list(np.shape(iresp["frfs"])),
@@ -1144,9 +1151,6 @@ def _corr_frf(ctx, srs, rng, add):
                 if not ok:
                     ctx.disagree("frf-grid", inp, gi.tolist()[:12], m["grid"].tolist()[:12])
                     return
-                ctx.count("frf:grid-exact" if exact else "frf:grid-numeric")
-                if len(gi) < len(frqd) + n_osc:
-                    ctx.count("frf:grid-dropped-near-duplicates")
                 si = np.asarray(iresp["srs_frq"], float)
                 if si.shape != (n_osc,):
                     ctx.disagree("frf-shape", inp, {"resp_srs_frq_len": int(si.size)}, {"resp_srs_frq_len": n_osc})
@@ -1211,6 +1215,8 @@ def _freqvec_cases(ctx, rng):
                 freqs, tag = [g, 0.0, fn], "zero-unsorted"
             else:
                 freqs, tag = [g, g, g, fn], "repeated-adjacent"
+            if r == 1 and ci % 4 == 0:
+                freqs, tag = [fn], "single"
             tags = ["freqvec:" + tag]
             if ic == "steady" and any(f == 0 for f in freqs):
                 tags.append("freqvec:zero+steady")
@@ -1223,7 +1229,11 @@ def _freqvec_cases(ctx, rng):
             pk = PEAKS[(ci + r) % 6]
             tm = TIMES[(ci // 2 + r) % 3]
             es = bool((ci + r) % 2)
-            out.append((tags + ["shape:" + ("1-D" if oneD else "2-D")], sig[:, 0].copy() if oneD else sig, sr, freqs, Q, (st, ic, pk, tm, es), 1e-9))
+            if tag == "single":
+                H, oneD = 1, True
+                sig = sig[:, :1]
+            out.append((tags + ["shape:" + ("1-D" if oneD else "2-D") + (":LF=1" if len(freqs) == 1 else "")], sig[:, 0].copy() if oneD else sig, sr,
+                        freqs, Q, (st, ic, pk, tm, es), 1e-9))
     # dtype axis
     for i in range(ctx.pick(16, 64)):
         st, ic = combos[(i * 5) % len(combos)]
@@ -1604,9 +1614,14 @@ def _oracle_relations(case):
     def S(sig=sig, stype=st, peak="abs", time="primary", eqsine=False):
         return np.asarray(srs.srs(sig, sr, freqs, Q, stype=stype, peak=peak, time=time, eqsine=eqsine, **kw), float)
 
+    def plain(v):
+        if isinstance(v, (list, tuple)):
+            return [plain(x) for x in v]
+        return np.asarray(v).tolist()
+
     def bad(fam, what, obs, req, **more):
         fails.append({"family": "relation:" + fam, "what": what, "input": dict(case, **more),
-                      "observed": np.asarray(obs).tolist(), "required": np.asarray(req).tolist()})
+                      "observed": plain(obs), "required": plain(req)})
 
     for tm in TIMES:
         a, p, n_ = S(time=tm), S(peak="pos", time=tm), S(peak="neg", time=tm)
@@ -1659,6 +1674,16 @@ def _oracle_relations(case):
     if np.shape(sh2) != want_sh or r2["hist"].shape[1:] != (H, LF) or r2["hist"].shape[0] != len(r2["t"]):
         bad("shapes", "sh.shape is not (len(freq), nsignals) / resp['hist'].shape is not (len(t), nsignals, len(freq))",
             [list(np.shape(sh2)), list(r2["hist"].shape)], [list(want_sh), [len(r2["t"]), H, LF]])
+    col1 = sig if sig.ndim == 1 else sig[:, 0].copy()
+    for fr1 in ([freqs[0]], freqs[0]):  # one oscillator, as a vector and as a scalar
+        o1, r1 = srs.srs(col1, sr, fr1, Q, stype=st, getresp=True, **kw)
+        # ('mshift' subtracts a column mean whose summation order depends on the memory layout)
+        ref1 = float(np.asarray(pri).reshape(LF, -1)[0, 0])
+        if np.shape(o1) != (1,) or r1["hist"].shape != (len(col1), 1, 1) or \
+                abs(float(np.asarray(o1)[0]) - ref1) > (1e-12 * abs(ref1) if ic == "mshift" else 0.0):
+            bad("shapes:one-frequency", "a 1-D signal with one oscillator: sh.shape is not (1,) / hist.shape is not (N, 1, 1) / value differs",
+                [list(np.shape(o1)), list(r1["hist"].shape)], [[1], [len(col1), 1, 1]])
+            break
     # ---- callable peaks, rms
     ca = S(peak=_abs_peak)
     if not np.array_equal(ca, pri):
@@ -1772,6 +1797,13 @@ def _oracle_frf(case):
                 and np.asarray(d[0]).shape == frf.shape and np.max(np.abs(np.asarray(d[0]) - Q * np.abs(frf))) <= 1e-12 * Q * np.max(np.abs(frf))):
             bad("scale_by_Q_only:default", "srs_frf(frf, frf_frq, None, Q, scale_by_Q_only=True) is not (Q |frf|, frf_frq)",
                 [np.asarray(v).tolist() for v in (d if isinstance(d, tuple) else (d,))], [(Q * np.abs(frf)).tolist(), frq.tolist()])
+    elif np.all(np.diff(sf) > 0):
+        # one FRF line: attributed to the first analysis frequency not below it (the last one if there is none)
+        wq = np.zeros((len(sf), frf.shape[1]))
+        wq[min(int(np.searchsorted(sf, frq[0])), len(sf) - 1)] = Q * np.abs(frf[0])
+        if shq.shape != wq.shape or np.max(np.abs(shq - wq)) > 1e-12 * max(np.max(np.abs(wq)), 1e-300):
+            bad("scale_by_Q_only:single-line", "one FRF line with scale_by_Q_only: Q x |FRF| is not on the first analysis frequency at or "
+                "above the line (last one if none)", shq.tolist(), wq.tolist())
     # ---- getresp dictionary
     r = srs.srs_frf(frf, frq, sf, Q, getresp=True)
     if not (isinstance(r, tuple) and len(r) == 2 and isinstance(r[1], dict) and sorted(r[1]) == ["freq", "frfs", "srs_frq"]):
@@ -2012,6 +2044,9 @@ def search(ctx, hints):
                       "srs_frq": [(base + 3.0 + 0.5e-5) / ppk, (base + 11.0 + 3e-5) / ppk, 0.3 * base, 2.5 * base + 40.0], "Q": Qf})
         cases.append({"kind": "frf", "frf_frq": [base], "frf": [[float(rng.uniform(0.5, 2.0))]], "frf_imag": [[float(rng.uniform(-1, 1))]],
                       "srs_frq": [0.5 * base, base / ppk, 1.7 * base][: 1 + i % 3], "Q": Qf})
+        # one FRF line that is merged into a peak frequency just below it and is the highest analysis frequency
+        cases.append({"kind": "frf", "frf_frq": [base], "frf": [[1.5]], "frf_imag": None,
+                      "srs_frq": [0.4 * base, (base - 0.4e-5) / ppk], "Q": Qf})
         cases.append({"kind": "frf", "frf_frq": frq.tolist(), "frf": re.tolist(), "frf_imag": None if im is None else im.tolist(),
                       "srs_frq": None, "Q": Qf})
         if i == 0:
